@@ -51,6 +51,7 @@ func checkBidStrategy(p *core.Prog, r *core.Report, ds *core.Describer, rel stri
 		fn   *ssa.Function
 		send *ssa.Send
 		lit  *core.StructLit
+		site ssa.Instruction // the send, or — when the message is merged from several literals — the end of the block in which the bid-carrying one was built
 	}
 	var sends []bidSend
 	for _, f := range fns {
@@ -59,13 +60,19 @@ func checkBidStrategy(p *core.Prog, r *core.Report, ds *core.Describer, rel stri
 			if !ok {
 				return
 			}
-			a, ok := snd.X.(*ssa.Alloc)
-			if !ok {
-				return
-			}
-			for _, sl := range core.StructLits(f, "builderBidResponse") {
-				if sl.Alloc == a && sl.Fields["bid"] != nil && !core.IsNilConst(sl.Fields["bid"]) {
-					sends = append(sends, bidSend{f, snd, sl})
+			for _, lf := range core.FeasibleLeaves(f, snd.X, snd) {
+				a, ok := lf.V.(*ssa.Alloc)
+				if !ok {
+					continue
+				}
+				site := ssa.Instruction(snd)
+				if lf.Pred != nil {
+					site = lf.At
+				}
+				for _, sl := range core.StructLits(f, "builderBidResponse") {
+					if sl.Alloc == a && sl.Fields["bid"] != nil && !core.IsNilConst(sl.Fields["bid"]) {
+						sends = append(sends, bidSend{f, snd, sl, site})
+					}
 				}
 			}
 		})
@@ -79,7 +86,7 @@ func checkBidStrategy(p *core.Prog, r *core.Report, ds *core.Describer, rel stri
 		f := bs.fn
 		base := fmt.Sprintf("%s|%s|bid-response#%d", tag, core.FnKey(f), i+1)
 		bidV := bs.lit.Fields["bid"]
-		chain := callChain(p, f, bs.send, 3)
+		chain := callChain(p, f, bs.site, 3)
 		// (a1) value >= MinValue
 		minG := func(c core.Cond) int {
 			if c.Op == "" {
